@@ -76,13 +76,14 @@ def _sort_key(ctx, priv):
     for sub in K.walk_no_nested(priv.node):
         if isinstance(sub, ast.Call) and dotted_text(sub.func) == 'sorted':
             call = sub
-    ctx.require(call is not None, 'sorted() in %s' % priv.qualname)
+    ctx.require(call is not None, 'sorted() in %s' % priv.qualname,
+        rule='C06.1')
     rev = K.kwarg(call, 'reverse')
     ctx.ob('C06.1', priv, call,
            rev is None or (isinstance(rev, ast.Constant) and not rev.value),
            'ascending sort')
     keyfunc, param, tup = K.sort_key_tuple(ctx.index, priv, call)
-    ctx.require(isinstance(tup, ast.Tuple), 'tuple sort key')
+    ctx.require(isinstance(tup, ast.Tuple), 'tuple sort key', rule='C06.1')
     elts = tup.elts
     e0 = len(elts) > 0 and isinstance(elts[0], ast.UnaryOp) and \
         isinstance(elts[0].op, ast.USub) and \
@@ -196,13 +197,13 @@ def _rank(ctx, priv):
         s.value.elts and N.txt(s.value.elts[0]) == rvar
         for s in ast.walk(n.ast))]
     ctx.require(builds, 'construction of the queue entry (rank first) in '
-                        '%s' % priv.qualname)
+                        '%s' % priv.qualname, rule='C06.2')
     want = {('F', 'T'): 'unplaced', ('F', 'F'): 'unplaced',
             ('F', '?'): 'unplaced', ('T', 'T'): 'boosted',
             ('T', 'F'): 'base'}
     for build in builds:
         states = sorted(set(st for (node, st) in reached if node is build))
-        ctx.require(states, 'entry construction reachable')
+        ctx.require(states, 'entry construction reachable', rule='C06.2')
         seen = set()
         for rank, capv, boostv in states:
             expect = want.get((capv, boostv))
@@ -279,7 +280,7 @@ def _layout(ctx, priv, merged):
     ptup = _entry_tuple(ctx, priv)
     mtup = _entry_tuple(ctx, merged)
     ctx.require(ptup is not None and mtup is not None,
-                'entry tuples of both generators')
+                'entry tuples of both generators', rule='C06.4')
     ploop = K.one(_yield_loops(ctx.cfg(priv)), 'queue loop of the private '
                                                'generator')
     appv = sorted(N.for_targets(ploop))[-1]
@@ -472,10 +473,11 @@ def _exactly_once(ctx, priv, merged):
     ctx.require(sa is not None, 'Cell.schedule_alloc')
     placing = [c for c in K.calls(sa.node)
                if K.is_meth(c, '_find_placements') and c.args]
-    ctx.require(len(placing) == 1, '_find_placements call in schedule_alloc')
+    ctx.require(len(placing) == 1, '_find_placements call in schedule_alloc',
+        rule='C06.5')
     qarg = placing[0].args[0]
     ctx.require(isinstance(qarg, ast.Name), 'queue passed to the placement '
-                                            'loop is a local')
+                                            'loop is a local', rule='C06.5')
 
     def from_merged(expr, depth=0):
         """expr denotes all items of allocation.<merged>(...) in order."""
@@ -577,7 +579,8 @@ def _single_membership(ctx):
                    'partition is another allocation)' % func.name,
                    path=K.describe(skip) if skip else None,
                    construct='join on every path of %s' % func.name)
-    ctx.require(count >= 1, '<allocation>.add(<instance>) in Cell')
+    ctx.require(count >= 1, '<allocation>.add(<instance>) in Cell',
+        rule='C06.5')
 
 
 def _message_assert(node):
@@ -635,7 +638,8 @@ def _unplaced(ctx):
     nz = loop.nz
     tests = [n for n in loop.body() if n.kind == 'test' and
              '.final_rank' in N.txt(n.ast)]
-    ctx.require(tests, 'test of final_rank in the placement loop')
+    ctx.require(tests, 'test of final_rank in the placement loop',
+        rule='C06.6')
     for test in tests:
         atom = nz.atom(test.ast)
         ok = atom.key[0] == 'cmp' and atom.key[1] == '==' and sorted(
@@ -701,7 +705,8 @@ def _manifest_priority(ctx):
                    'manifest priority passes through a truthiness default: '
                    'an explicit priority 0 is treated as unset',
                    construct=N.txt(expr)[:100])
-    ctx.require(hits >= 1, "reads of manifest['priority'] in load_app")
+    ctx.require(hits >= 1, "reads of manifest['priority'] in load_app",
+        rule='C06.7')
 
 
 def _assignments_rebuilt(ctx):
@@ -720,7 +725,8 @@ def _assignments_rebuilt(ctx):
                 isinstance(t, ast.Subscript) and
                 N.txt(t.value) == 'self.assignments'
                 for t in n.ast.targets))]
-    ctx.require(fills, 'assignment table filled in load_allocations')
+    ctx.require(fills, 'assignment table filled in load_allocations',
+        rule='C06.7')
     fresh = [n for n in graph.nodes if n.kind == 'stmt' and
              isinstance(n.ast, ast.Assign) and any(
                  N.txt(t) == 'self.assignments' for t in n.ast.targets) and
